@@ -20,30 +20,6 @@ open FontVerif FontVerif.Graph FontVerif.TableWriter
 
 /-! ### (1) content deduplication is sound and complete -/
 
-theorem entry_unique (s : Store) (hnd : (s.map (·.2)).Nodup) (d d' : TData) (id : Nat)
-    (h : (d, id) ∈ s) (h' : (d', id) ∈ s) : d = d' := by
-  induction s with
-  | nil => cases h
-  | cons e rest ih =>
-    simp only [List.map_cons, List.nodup_cons] at hnd
-    rcases List.mem_cons.mp h with h | h <;> rcases List.mem_cons.mp h' with h' | h'
-    · rw [← h] at h'; exact ((Prod.mk.injEq _ _ _ _ ▸ h').1).symm
-    · exact absurd (List.mem_map.mpr ⟨(d', id), h', by rw [← h]⟩) hnd.1
-    · exact absurd (List.mem_map.mpr ⟨(d, id), h, by rw [← h']⟩) hnd.1
-    · exact ih hnd.2 h h'
-
-theorem content_unique (s : Store) (hp : s.Pairwise (fun a b => a.1.same b.1 = false)) (e e' : TData × Nat)
-    (h : e ∈ s) (h' : e' ∈ s) (hs : e.1.same e'.1 = true) : e = e' := by
-  induction s with
-  | nil => cases h
-  | cons x rest ih =>
-    rw [List.pairwise_cons] at hp
-    rcases List.mem_cons.mp h with h | h <;> rcases List.mem_cons.mp h' with h' | h'
-    · rw [h, h']
-    · have := hp.1 e' h'; rw [← h, hs] at this; cases this
-    · have := hp.1 e h; rw [← h', same_symm, hs] at this; cases this
-    · exact ih hp.2 h h'
-
 /-- **`ObjectStore::add` shares an id exactly with equal content.**  In every store the writer can reach (`Inv`), adding
 an object returns the id of an object `e` already in the store if and only if `e` has the same bytes and the same offset
 records (position, width, target id, adjustment — the `type_` tag is not part of the key).  So sharing never merges
@@ -247,48 +223,6 @@ theorem compile_places_nested (ids : Nat → Nat) (hinj : Function.Injective ids
 section dsl
 open FontVerif.Field FontVerif.FieldNested
 
-/-- the owned value whose offset scalars are the offsets found in the output: `o` with the offset fields replaced by
-the entries of `vA` -/
-def patchObj (slots : Slots) (o : Field.Obj) (vA : View) : Field.Obj :=
-  vA.filter (fun e => (slotW slots e.1).isSome) ++ o
-
-theorem lookup_filter_slot (slots : Slots) (vA : View) (f : Nat) :
-    (vA.filter (fun e => (slotW slots e.1).isSome)).lookup f = if (slotW slots f).isSome then vA.lookup f else none := by
-  induction vA with
-  | nil => simp [List.lookup]
-  | cons e rest ih =>
-    obtain ⟨k, v⟩ := e
-    simp only [List.filter]
-    cases hk : (slotW slots k).isSome with
-    | true =>
-      simp only [List.lookup]
-      by_cases hf : f = k
-      · subst hf; simp [hk]
-      · have : (f == k) = false := by simpa using hf
-        simp only [this, ih]
-    | false =>
-      simp only [List.lookup]
-      by_cases hf : f = k
-      · subst hf; simp [hk, ih]
-      · have : (f == k) = false := by simpa using hf
-        simp only [this, ih]
-
-theorem patch_get_nonslot (slots : Slots) (o : Field.Obj) (vA : View) (f : Nat) (h : slotW slots f = none) :
-    (patchObj slots o vA).get f = o.get f := by
-  unfold patchObj Field.Obj.get
-  rw [List.lookup_append, lookup_filter_slot, h]
-  simp
-
-theorem patch_get_slot (slots : Slots) (o : Field.Obj) (vA : View) (f x : Nat) (h : slotW slots f ≠ none)
-    (hl : vA.lookup f = some (.num x)) : (patchObj slots o vA).get f = .num x := by
-  unfold patchObj Field.Obj.get
-  have : (slotW slots f).isSome = true := by
-    cases hs : slotW slots f with
-    | none => exact absurd hs h
-    | some _ => rfl
-  rw [List.lookup_append, lookup_filter_slot, this, if_pos rfl, hl]
-  simp
-
 /-- **`read_write` lifted to nested tables.**  Take a generated (writer program `ws`, reader layout `rs`) pair of C04
 (`compatU as ws rs`), declare which of its scalar `.field` statements are offsets (`slots`, checked against the program
 by `slotOK`), and a value of it: the scalars / arrays `o` and, for every offset field, the child subtable or null
@@ -369,10 +303,6 @@ theorem nested_read_write_root_partial (ext : Ext) (as : List Assume) (ws : List
   have := nested_read_write_partial ext as ws rs o slots kids args out 0 fs vN hc hs he hext hassume hat hsmall
     (by intro hu; rw [Nat.zero_add]; exact hr hu)
   simpa using this
-
-/-- the offset fields of `Gdef` (write-fonts generated_gdef.rs): glyph class def, attach list, lig caret list, mark attach
-class def (16-bit), mark glyph sets (16-bit, version ≥ 1.2), item variation store (32-bit, version ≥ 1.3) -/
-def gdefSlots : Slots := [(1, 2), (2, 2), (3, 2), (4, 2), (5, 2), (6, 4)]
 
 open FontVerif.Gen.WriteProgs in
 /-- instance: the generated `Gdef` pair with all six offsets real -/
